@@ -112,9 +112,13 @@ WRONG = {'json': {1, 2}, 'numpy': [1, 2], 'pandas': {'a': 1}, 'generated': [1, 2
          'figure': 'no figure'}
 
 
-def poison(kind, v):
+def poison(kind, v, plain=False):
     """a value of the right type that the serializer of the kind cannot write"""
     if kind == 'json':
+        # (an object of the harness, or — every third size — values Python programs commonly hold that JSON has no form for: a set, a path)
+        if isinstance(v, dict) and plain:
+            import pathlib
+            return dict(v, bad={3, 1, 2}, where=pathlib.PurePosixPath('a/b'))
         return dict(v, bad=Unserialisable())
     if kind == 'numpy':
         return np.array([1, Unserialisable()], dtype=object)
@@ -158,7 +162,7 @@ def _run(task, kind):
             (d.dir / n).write_text(t)
         if kind == 'continues' and c.get('finish', True):
             d.finished()
-        if fault in ('typeCheck', 'serialise'):
+        if fault in ('typeCheck', 'serialise', 'serialisePy'):
             return {'not': 'a data object'}
         return d
     if fault == 'runMid':
@@ -166,8 +170,8 @@ def _run(task, kind):
     v = value(kind, gen, size)
     if fault == 'typeCheck':
         return WRONG[kind]
-    if fault == 'serialise':
-        v = poison(kind, v)
+    if fault in ('serialise', 'serialisePy'):
+        v = poison(kind, v, plain=(fault == 'serialisePy'))
     if kind == 'figure':
         import pylab
         fig = pylab.figure()
